@@ -12,6 +12,9 @@
     (1024 files): never a crash, the C13 contract holds, every position lies inside the decoded text, and
     where the decoded character is neutral in its context (Lexer.tla classes) the file is still OK.
  4. seeded random binary files.
+ 5. the language server: a workspace folder stored in each of the five encodings, every history of Lsp.tla over
+    didOpen / didChange / didClose / semantic-token requests (MC_Lsp_encws*.cfg: workspace contents x messages) - the
+    traffic (published codes and positions, token data) must be identical whatever the encoding of the files on disk.
 """
 import os
 import random
@@ -304,6 +307,60 @@ def part_size(rep, cov, tier):
     cov["traces_validated_against_impl"] += len(jobs)
 
 
+LSP_TEXTS = {
+    # 1: a library with non-ASCII text in comments and strings;  2: a user of it with a fault AFTER non-ASCII text on its line
+    1: ("(* Z\u00e4hler \u20ac \u2122 *) TYPE LEVEL : (LOW, HIGH) := LOW; END_TYPE\nFUNCTION_BLOCK Counter\n"
+        "VAR n : INT; s : STRING := 'gr\u00fc\u00df \u20ac'; END_VAR\n(* \u00e9t\u00e9 \u201c\u201d *) n := n + 1;\nEND_FUNCTION_BLOCK\n"),
+    2: ("FUNCTION_BLOCK User\nVAR c : Counter; l : LEVEL := HIGH; k : INT; END_VAR\n"
+        "(* \u00fcber \u20ac\u2026 *) k := missing + 1;\nEND_FUNCTION_BLOCK\n"),
+}
+
+
+def part_lsp(rep, cov, tier):
+    import lspdrv
+    cfg = "MC_Lsp_encws2.cfg" if tier == "quick" else "MC_Lsp_encws3.cfg"
+    r = vlib.tlc_check("Lsp.tla", cfg, workers=8, timeout=3600)
+    cov["states"] += r["states"]
+    cov["transitions"] += r["transitions"]
+    replays = [x for x in r["replay"] if x.get("R") == "lsp"]
+    cov["tlc_runs"].append({"cfg": cfg, "states": r["states"], "behaviours": len(replays)})
+    encs = ["utf8", "utf8bom", "utf16le", "utf16be", "cp1252"]
+    wd = vlib.workdir("c14_lsp")
+
+    def run(item):
+        i, rp = item
+        obs = []
+        for e in encs:
+            d = os.path.join(wd, "w%d_%s" % (i, e))
+            os.makedirs(d, exist_ok=True)
+            for u, t in enumerate(rp["hist"][0]["d"], start=1):
+                if t != 0:
+                    with open(os.path.join(d, lspdrv.fname(u)), "wb") as f:
+                        f.write(clidrv.encode(LSP_TEXTS[t], e))
+            res = lspdrv.run_server(lspdrv.concretize(rp["hist"], LSP_TEXTS), workspace=d)
+            obs.append((res["rc"], lspdrv.observe(res["frames"])))
+            import shutil
+            shutil.rmtree(d, ignore_errors=True)
+        return obs
+
+    with ThreadPoolExecutor(max_workers=vlib.NCPU) as ex:
+        results = list(ex.map(run, enumerate(replays)))
+    kinds = set()
+    for rp, obs in zip(replays, results):
+        kinds |= set(m["k"] for m in rp["hist"])
+        for e, o in zip(encs[1:], obs[1:]):
+            if o != obs[0]:
+                what = "exit-status" if o[0] != obs[0][0] else "traffic"
+                rep.add("lsp:workspace-encoding-changes-%s:%s" % (what, e), labels={"lsp", "enc:" + e} | set(m["k"] for m in rp["hist"]),
+                        detail={"history": rp["hist"], "utf8": obs[0], e: o},
+                        replay={"history": rp["hist"], "texts": {str(k): v for k, v in LSP_TEXTS.items()}, "disk": rp["hist"][0]["d"], "encoding": e})
+                break
+    cov["lsp_histories"] = len(replays)
+    cov["lsp_server_runs"] = len(replays) * len(encs)
+    cov["lsp_message_kinds"] = sorted(kinds)
+    cov["traces_validated_against_impl"] += len(replays) * len(encs)
+
+
 def main():
     tier = sys.argv[1] if len(sys.argv) > 1 else vlib.TIER
     vlib.TIER = tier
@@ -313,8 +370,10 @@ def main():
     part_enc(rep, cov, tier)
     part_sweep(rep, cov, tier)
     part_size(rep, cov, tier)
+    part_lsp(rep, cov, tier)
     cov["exhaustive"] = True
-    cov["rule"] = ("all 125 assignments of 5 encodings to 3 files x invocations; every byte value in 4 contexts; random binary files")
+    cov["rule"] = ("all 125 assignments of 5 encodings to 3 files x invocations; every byte value in 4 contexts; random binary files; "
+                   "every workspace content x message history of the language-server model in all 5 encodings")
     return rep.finish("model_checking", cov, assumptions=[
         "the encoders are Python codecs; Windows-1252 variants contain byte sequences that are not valid UTF-8, otherwise the cascade is ambiguous by design",
         "'inside the decoded text' is evaluated on a Python re-implementation of the documented cascade (BOM, UTF-8, Windows-1252)"])
